@@ -9,6 +9,9 @@ CONSTANTS
   DEV_DoubleRemove = FALSE
   DEV_UndefDep = TRUE
   DEV_DefRename = TRUE
+  DEV_NameCase = FALSE
+  DEV_DefLocator = FALSE
+  DEV_KindBound = TRUE
   MaxDepth = 9
   FullEvery = 1
 SPECIFICATION Spec
